@@ -845,3 +845,7 @@ mod tests {
         assert_eq!(actual, [Some(5), Some(8), None]);
     }
 }
+
+#[cfg(kani)]
+#[path = "/verif/harness/bcf/samples_series.rs"]
+mod verif_kani;
